@@ -190,7 +190,7 @@ Proof.
   destruct (cdict a) as [|pa ra] eqn:Da.
   - exists a. split; [reflexivity|]. split; [assumption|]. split; [reflexivity|].
     intros m. rewrite Da. reflexivity.
-  - remember (pa :: ra) as A eqn:EA.
+  - rewrite <- Da. clear Da pa ra.
     destruct (cdict b) as [|[kb cb] rb] eqn:Db.
     + eexists. split; [reflexivity|]. split; [split; constructor|]. split; [reflexivity|].
       intros m. rewrite t_mul_nil_r. reflexivity.
@@ -199,7 +199,7 @@ Proof.
       * apply andb_prop in Sc as [S1 S2]. destruct rb; [|discriminate].
         simpl in S2. destruct (mono_eqb (zeros (csize a)) kb) eqn:Ez; [|discriminate].
         apply mono_eqb_eq in Ez. subst kb.
-        destruct Ha as [NDa Fa]. destruct Hb as [NDb Fb]. rewrite Da in *. rewrite Db in *.
+        destruct Ha as [NDa Fa]. destruct Hb as [NDb Fb]. rewrite Db in *.
         inversion Fb as [|? ? [_ Hcb] _]; subst. simpl in Hcb.
         eexists. split; [reflexivity|]. split; [|split; [reflexivity|]].
         -- unfold cont_ok. simpl cdict. simpl csize. split; [rewrite keys_scale; assumption|].
@@ -213,5 +213,5 @@ Proof.
         rewrite <- Db. rewrite Er. simpl bind. eexists. split; [reflexivity|].
         split; [|split; [reflexivity|]].
         -- unfold cont_ok in *. simpl. rewrite <- Sr. assumption.
-        -- intros m. simpl. rewrite Cr. rewrite Da. reflexivity.
+        -- intros m. simpl. rewrite Cr. reflexivity.
 Qed.
